@@ -357,4 +357,7 @@ func runC18(r *run) {
 		check("privacy on again")
 	}
 	slog.VerifResetGlobals()
+	// a process whose first calls register its mappings, before any path was looked at (production and go-test flavour)
+	envProbe(r, false, "paths")
+	envProbe(r, true, "paths")
 }
